@@ -27,9 +27,11 @@ What is proved here (for all inputs, on the hand-written models that the harness
   `seconds_exact_of_5dec`, and the two LEAF-LEVEL bridges `floatCodec_refines` / `secondsCodec_refines`: for ONE
   grid value `|k| / 10^5 < 2^36` the printable-grid codec of the handler-table model (`Leaf.num k`, `dumpsNum`,
   `loadsNum`) writes the text the real code writes for the nearest double (resp. for the Fraction `k / 10^5`) and the
-  real reader maps that text back to that double (resp. Fraction).  They are NOT composed with the class / document
-  theorems: `C08_roundtrip_model` and every class theorem are statements over `Leaf.num (k : ℤ)` with no bound on `k`
-  and with `loadsNum`, which is the inverse of `dumpsNum` on its image only (not `float()`: `0.5`, `1`, `1e0` are
+  real reader maps that text back to that double (resp. Fraction).  `C08_roundtrip_model_floats_partial` (section
+  FloatDoc, `Proofs/C08FloatDoc.lean`) composes them with the document model under the decidable `NumsBounded` for the
+  declarative `FloatType` rows of the regenerated parser tables, the five gain handlers and jumpPosition; the numbers of
+  the other hand-written handlers are not traversed.  `C08_roundtrip_model` and every class theorem themselves remain
+  statements over `Leaf.num (k : ℤ)` with no bound on `k` and with `loadsNum`, which is the inverse of `dumpsNum` on its image only (not `float()`: `0.5`, `1`, `1e0` are
   outside, `-0.00000` is read as 0); what the grid model cannot express is listed in `grid_model_excluded_points`
   (`-0.0`, gain = -1e-7, other spellings, leaves beyond the bound).
 
